@@ -86,8 +86,9 @@ UNIVERSES = {
     "emptylist-d2": (("a", "b"), ([], False), 2),
     "odict-d2": (("a", "b"), (1, None), 2),
     "eqtypes-d2": (("a", "b"), (1, True), 2),  # leaves that compare equal but are different values: the override's one is kept
+    "nonstr-d2": ((8080, None), (1, "s"), 2),  # keys need not be strings (a port number, None): sections under them merge like any other
 }
-QUICK = ["ab-d2", "dotted-d2", "lists-d2", "abc-d1", "a-d4", "falsy-d2", "emptylist-d2", "odict-d2", "eqtypes-d2"]
+QUICK = ["ab-d2", "dotted-d2", "lists-d2", "abc-d1", "a-d4", "falsy-d2", "emptylist-d2", "odict-d2", "eqtypes-d2", "nonstr-d2"]
 THOROUGH = QUICK + ["ab-d3"]
 
 
